@@ -33,6 +33,9 @@ func RenderJSON(n *Node, o JSONOpts) []byte {
 	return b
 }
 
+// MarshalJSON encodes v without HTML escaping and without a trailing newline.
+func MarshalJSON(v interface{}) ([]byte, error) { return marshalNoHTML(v) }
+
 func marshalNoHTML(v interface{}) ([]byte, error) {
 	var buf bytes.Buffer
 	enc := json.NewEncoder(&buf)
